@@ -4,12 +4,14 @@ use crate::core::{Ctx, Prop};
 use crate::item::Scenario;
 use crate::prng::Rng;
 use crate::w_defrag;
+use crate::w_flow;
 use crate::w_stream;
 
 pub fn generate(prop: Prop, rng: &mut Rng) -> Scenario {
     match prop {
         Prop::C07 => w_defrag::generate(rng, prop),
         Prop::C02 | Prop::C03 | Prop::C16 => w_stream::generate(rng, prop),
+        Prop::C08 => w_flow::generate(rng, prop),
         _ => w_defrag::generate(rng, prop),
     }
 }
@@ -18,6 +20,7 @@ pub fn execute(scn: &Scenario, ctx: &mut Ctx) {
     match scn.world.as_str() {
         "defrag" => w_defrag::execute(scn, ctx),
         "stream" => w_stream::execute(scn, ctx),
+        "flow" => w_flow::execute(scn, ctx),
         _ => {}
     }
 }
@@ -46,6 +49,7 @@ pub fn cell_name(space: &str, id: u32) -> String {
     match space {
         "defrag" => w_defrag::cell_name(id),
         "cut" | "rec" | "many" => w_stream::cell_name(space, id),
+        "transition" => w_flow::cell_name(id),
         _ => format!("{}#{}", space, id),
     }
 }
@@ -89,6 +93,19 @@ pub fn meta(prop: Prop) -> Meta {
             assumptions: &[
                 "strict oracle only on packings for which the crate promises delivery (complete same-type messages per record); malformed inputs are constructed with certain verdicts, never guessed from random corruption",
                 "an empty remainder is compared by length only (it has no bytes whose address could matter)",
+            ],
+        },
+        Prop::C08 => Meta {
+            level: "exploration",
+            rule: "one evaluation = one simulated two-party conversation at message level: the peers follow a seeded walk through the documented flow grammar, the fault layer perturbs the message history (drop, duplicate, reorder, cross-direction skew at the tap through per-direction latency on the simulated clock, direction flip, injection of any message kind, alert and HelloRequest injection, mid-stream pickup in any of the 25 states), and the passive monitor feeds every message (constructed values, or in the integrated batch values produced by the real parser from the wire) to the real tls_state_transition; each step is compared with the reference flow acceptor derived from the declarative grammar; distinct = distinct abstract traces (sequence of (state, direction, token, result) steps); non-trivial = at least 2 steps or a fault fired",
+            fault_kinds: &["msg-drop", "msg-dup", "msg-reorder", "cross-direction-skew", "direction-flip", "msg-inject", "alert-inject", "hello-request-inject", "midstream-pickup"],
+            cell_spaces: vec![("transition", Some((0..1150).collect()))],
+            real: &["tls_state_transition", "parse_tls_plaintext (integrated batch)"],
+            stub: &["client / server peers (flow grammar walk)", "message-level fault layer", "per-direction latency / tap ordering on the simulated clock", "reference flow acceptor", "message constructors"],
+            assumptions: &[
+                "the reference acceptor is a transcription of the documented flows and of the property statement (limited independence: not a second implementation by another author)",
+                "where the statement's two universal clauses collide (state Finished + HelloRequest) 'Finished always moves to Invalid' takes precedence",
+                "message content is sampled within each kind; the 25 x 2 x 23 cell coverage is measured and reported, not guaranteed",
             ],
         },
         Prop::C16 => Meta {
